@@ -238,16 +238,39 @@ class EventMixin (object):
     """
     #TODO: this should really keep subsequent events executing and print
     #      the specific handler that failed...
+
+    # Raising an event this source doesn't declare is the caller's mistake
+    # and is reported to the caller.  That's the only ReventError meant to get
+    # out of here: one that comes from *inside* a handler (say, a handler
+    # which misuses some event source itself) is a handler failure like any
+    # other.
+    self._eventMixin_check_declared(event)
     try:
       return self.raiseEvent(event, *args, **kw)
-    except ReventError:
-      # That's bad...
-      raise
     except:
       if handleEventException is not None:
         import sys
         handleEventException(self, event, args, kw, sys.exc_info())
     return None
+
+  def _eventMixin_check_declared (self, event):
+    """
+    Raises ReventError if raiseEvent(event) would reject event as undeclared
+    """
+    if self._eventMixin_initialized is False:
+      self._eventMixin_init()
+    if isinstance(event, Event):
+      eventType = event.__class__
+    elif isinstance(event, type) and issubclass(event, Event):
+      # (raiseEvent returns early, without complaint, when nobody listens)
+      if not self._eventMixin_handlers.get(event): return
+      eventType = event
+    else:
+      return
+    if (self._eventMixin_events is not True
+        and eventType not in self._eventMixin_events):
+      raise ReventError("Event %s not defined on object of type %s"
+                        % (eventType, type(self)))
 
   def raiseEvent (self, event, *args, **kw):
     """
